@@ -427,6 +427,12 @@ def gen_codec_cases(rng, n):
 def main(argv=None):
     ck = Check("C13", argv)
     common.setup_impl_env()
+    # a process-local zone that is not UTC, so that any code path that falls back to the system zone
+    # (naive datetimes, fromtimestamp without tz) is observable
+    import os
+    import time
+    os.environ["TZ"] = "Asia/Kathmandu"
+    time.tzset()
     from aw_core.models import Event, _timestamp_parse
     from aw_core.schema import get_json_schema
     import aw_datastore.storages.sqlite as sq
